@@ -3,6 +3,11 @@
 import json, subprocess
 ALL=[f"C{i:02d}" for i in range(1,20)]
 CLAIMED={
+ "C19": dict(
+   text="Limits are read from the server's FSINFO/PATHCONF replies; for every limit the requests at limit-1, limit, limit+1 and at the extremes (name lengths in four procedures, write counts at three offsets on two file shapes, file sizes/offsets up to 2^64-1, read sizes) are issued on a large disk: at or below the limit complete success (no short count) that reads back also after a restart; beyond it a clean error without effect or consumption; fsck; all space returns afterwards.",
+   note="Trusted: reference model with the announced limits plugged in. Bounds: the boundary value sets; one scenario per value (no sequences of limit requests).",
+   technique="bounded-exhaustive enumeration of boundary inputs on the implementation against the reference model parameterised by the announced limits",
+   ref="DESIGN.md 4 (C19)"),
  "C15": dict(
    text="Every disk size in dense ranges around the smallest accepted size and around three bitmap-block boundaries (plus the sizes the tests and CLI use): layout regions adjacent/inside/equal to an independent computation; fresh image bitmaps exact; fsck; the disk is filled completely through WRITEs, every data block must be owned and none outside, then everything is deleted and the free counts must return.",
    note="Trusted: fsck and the independent layout arithmetic. Bounds: the size ranges; quick fills only sizes < 1700, +-2 around each boundary and the two large sizes (thorough fills all).",
